@@ -374,6 +374,9 @@ func (h h1) Gen(prop, tier string, r *simrt.Rng) (any, simrt.Config) {
 		mode = simrt.Pick(r, "constant", "constant", "staged", "ramp", "gaussian", "users", "users")
 	case "C05":
 		maxSleep = simrt.Pick(r, 0, 30, 300, 3000)
+		if r.Intn(25) == 0 {
+			c.MaxDurationNs = simrt.Pick(r, int64(1), 5*ms, 10*ms) // not longer than the 10 ms guard: over before it begins
+		}
 		if r.Intn(6) == 0 {
 			c.Driver = simrt.Pick(r, "f1", "cli") // the public entry point and the command wrap the run: they must end with it
 		}
@@ -618,6 +621,13 @@ func (h h1) Gen(prop, tier string, r *simrt.Rng) (any, simrt.Config) {
 		}
 		if r.Intn(3) == 0 {
 			c.MaxIterations = 1
+		}
+		if r.Intn(3) == 0 {
+			// users: iterations follow one another on a worker without a pause, the cleanups of one sit right in front
+			// of the next one's body
+			c.Mode, c.Flags = "users", map[string]string{}
+			c.TickNs, c.TickRate = 0, 0
+			c.MaxIterations = uint64(2 + r.Intn(6))
 		}
 	case "C07":
 		if r.Intn(8) == 0 {
